@@ -36,6 +36,7 @@ def _verify_c(job):
         if list(pn) != list(ex.params)[:len(pn)] or len(pn) != len(ex.params):
             raise cvc.ContractMismatch("parameter list of %s is %s, contract says %s" % (func, ex.params, pn))
         out["gen_s"] = time.time() - t0
+        out["trivial"] = sorted(set(ex.trivial))
         out["paths"] = ex.npaths
         out["exits"] = ex.nexits
         out["assumptions"] = sorted(set(ex.assumptions))
@@ -74,6 +75,10 @@ def _verify_c(job):
                         ob.status = "failed"
                         ob.output += "; refuted by concrete replay"
             recs[q] = rec
+        for nm in out["trivial"]:
+            # contract clauses the generator's simplifier reduced to `true` (e.g. a store followed by a read)
+            out["obligations"].append({"name": nm + "#simplified", "kind": "POST", "status": "discharged",
+                                       "backend": "z3-simplifier", "time_s": 0.0, "output": ""})
         for q, ob in enumerate(obs):
             rec = {"name": ob.name, "kind": ob.kind, "status": ob.status, "backend": ob.backend,
                    "time_s": round(ob.time, 3), "output": ob.output}
@@ -131,10 +136,28 @@ def _model_dict(m):
 
 
 def run_c_functions(funcs, tier, jobs=None, opts=None):
-    jobs = jobs or min(16, max(1, len(funcs)))
+    from vf import registry
+    reg = registry.load_all()
+    work = []
+    for (f, g) in funcs:
+        scen = reg.meta.get((f, g), {}).get("scenarios")
+        if scen:
+            for sc in scen:
+                o = dict(opts or {})
+                o["scenario"] = sc
+                work.append((f, g, tier, o))
+        else:
+            work.append((f, g, tier, opts))
+    jobs = jobs or min(16, max(1, len(work)))
     ctx = mp.get_context("fork")
     with ctx.Pool(jobs) as pool:
-        res = pool.map(_verify_c, [(f, g, tier, opts) for (f, g) in funcs], chunksize=1)
+        res = pool.map(_verify_c, work, chunksize=1)
+    for w, r in zip(work, res):
+        sc = (w[3] or {}).get("scenario")
+        if sc:
+            r["function_label"] = "%s[%s]" % (r["function"], sc)
+            for ob in r["obligations"]:
+                ob["name"] = ob["name"].replace("/", "[%s]/" % sc, 1)
     return res
 
 
